@@ -5,6 +5,10 @@ Tie:  H  hand model `lean/XrsVerif/Model/Trim.lean` (the four directional scans,
          "nothing found", the Python slice) run by the Lean driver on the same rasters as the real
          `xrspatial.zonal.trim` / `crop`; window cells, both coordinate vectors, attrs and name compared
          exactly (an empty result is canonicalised to `empty`, whatever its 0-sized shape).
+      T3 `Gen.IL.trim` / `Gen.IL.crop` (lean/XrsVerif/Gen/IL.lean): `_trim` / `_crop` translated statement by
+         statement into ILang by harness/facts_il.py; `IL.trim_refines` / `IL.crop_refines` prove they compute the
+         hand model's `bounds`; the streams `il:trim` / `il:crop` (harness/il_corr.py) run these programs in the
+         driver against the numba kernels (float64 rasters 0x0..7x7, 16 lists each) and compare the four results.
 Oracle (independent of the model, from the property statement): the bounding box of the kept /
 selected cells computed with numpy set logic (NaN excluded when listed); the result must equal
 `raster[t:b+1, l:r+1]` cell for cell, with the coordinates and attrs of those positions, and must be
@@ -32,6 +36,7 @@ import numpy as np
 import xarray as xr
 
 import edge_values as ev
+import il_corr
 from common import Driver, tok
 
 PROP = "C18"
@@ -483,6 +488,9 @@ def declare(r):
         "model (Model/Trim.lean) tied to zonal._trim/_crop/trim/crop by the generated shapes of Gen/TrimFacts.lean (match "
         "predicates, scan directions / ranges, early return, wrapper casts and slice; harness/facts_trim.py) and by the "
         "correspondence run",
+        "layer T3: Gen.IL.trim / Gen.IL.crop are the statement-by-statement translation of _trim / _crop (harness/facts_il.py), "
+        "validated against the numba kernels by the il:trim / il:crop streams; ILang integers are unbounded (numba: int64) "
+        "and its numbers are generic (theorems) / IEEE doubles (driver): int64 wrap-around and float32 rounding are outside ILang",
         "cell values and list entries stay within 2^53 (numba compares int64 with float64, and uint64 with int64, in float64)",
         "the model follows the code as repaired by fixes/D5-trim-nan-aware-exclusion.patch and "
         "fixes/D16-trim-crop-empty-window.patch",
@@ -504,6 +512,9 @@ def run(r, n_override=None):
               "of the dtype (ids >= 1e5, limits, 2^53, fractions) + foreign entries (nan, +-inf, negative, out of range, "
               "fractional) + aliases a cast would wrap onto a cell value, decoy cells next to the listed values "
               "(nextafter, rel 1e-5..1e-9, abs 1e-8..1e-12, +-1), modes box/frame/none/all/random; "
+              "plus il:trim / il:crop (layer T3): the ILang programs generated from _trim / _crop run by the Lean driver "
+              "vs the numba kernels on float64 rasters 0x0..7x7 (empty, single row/column/cell, box / single hit / none / "
+              "all / random) x 16 lists each (empty, NaN, duplicates, +-inf, -0.0, absent values), results compared exactly; "
               "non-trivial = distinct case whose raster is not constant")
     reqs, pend = [], []
     for body in r.corpus():
@@ -537,6 +548,44 @@ def run(r, n_override=None):
         if len(reqs) >= 5000:
             flush(r, reqs, pend)
     flush(r, reqs, pend)
+    if n_override is None:
+        il_streams(r, {"quick": 1000, "thorough": 10000}[r.tier])
+
+
+# ---------------------------------------------------------------- layer T3: the generated programs vs numba
+IL_PROGS = ["trim", "crop"]
+
+
+def il_public_case(key):
+    """the public-function case (format of `call` / `oracle`) that hands the raster and list of an `il:` case to
+    `trim` / `crop`; None when the public function cannot take it (empty list: numba cannot type it; empty raster)"""
+    prog, c = key["prog"], key["case"]
+    lst = c["ex"] if prog == "trim" else c["values"]
+    h, w = c.get("shape") or (len(c["data"]), len(c["data"][0]) if c["data"] else 0)
+    if not lst or h == 0 or w == 0:
+        return None
+    data = [[ev.vtok(float(v)) for v in row] for row in c["data"]]
+    case = dict(fn=prog, dtype="float64", layout="C", data=data, ex=[ev.vtok(float(v)) for v in lst], ex_form="list",
+                ex_num="float", coords="plain", name=None)
+    if prog == "crop":
+        case.update(values=[[str((i * w + j) % 7) for j in range(w)] for i in range(h)], vdtype="float64",
+                    vshape_differs=False)
+    return case
+
+
+def il_streams(r, n):
+    """translator validation of `Gen.IL.trim` / `Gen.IL.crop` (the subjects of `IL.trim_refines` / `IL.crop_refines`)
+    against the numba-compiled `_trim` / `_crop`; a case on which they differ is also put to the property oracle"""
+    before = len(r.disagreements)
+    il_corr.stream(r, IL_PROGS, n)
+    for d in r.disagreements[before:]:
+        case = il_public_case(d["case"])
+        if case is None:
+            continue
+        status, out, src = call(case)
+        bad = oracle(case, status, out, src)
+        if bad:
+            r.fail(bad[0], bad[1] + " [input of the il: stream]", case)
 
 
 def search(r):
@@ -545,6 +594,17 @@ def search(r):
 
 def replay(r, body):
     case = body["case"]
+    if "prog" in case:                    # a case of the il: streams (generated program vs numba kernel)
+        bad = il_corr.replay_case(case)
+        pub = il_public_case(case)
+        if pub is not None:
+            status, out, src = call(pub)
+            o = oracle(pub, status, out, src)
+            if o:
+                print("still fails:", o[1])
+                return 1
+        print("generated program and numba kernel still differ" if bad else "does not fail on the current tree")
+        return bad
     status, out, src = call(case)
     bad = oracle(case, status, out, src)
     if bad:
